@@ -102,4 +102,41 @@ def encode (b : Option (List Nat)) (n : Nat) : Res (List Nat) :=
 /-- `bint.Decode`: big-endian fold with uint64 wrap-around. -/
 def bdecode (b : List Nat) : Nat := b.foldl (fun n x => ((n <<< 8) % U64 + x) % U64) 0
 
+/-! ### eth/encoding.go: `DecodeUint64`, `EncodeUint64` (the block numbers of every request go through the latter) -/
+
+/-- `strconv.ParseUint(s, 16, 64)`: the empty string, any character that is not a hex digit (no sign,
+    no underscore: the base is explicit) and any value that does not fit 64 bits are errors -/
+def parseUint16 (cs : List Nat) : Res Nat :=
+  if cs.isEmpty then .err
+  else if cs.all (fun c => (hexDigitVal c).isSome) then
+    let v := cs.foldl (fun a c => a * 16 + (hexDigitVal c).getD 0) 0
+    if v < U64 then .ok v else .err
+  else .err
+
+/-- `if len(s) >= 2 && s[0] == '0' && (s[1] == 'x' || s[1] == 'X') { s = s[2:] }` -/
+def strip0xN : List Nat → List Nat
+  | 48 :: 120 :: r => r
+  | 48 :: 88 :: r => r
+  | r => r
+
+/-- `eth.DecodeUint64`: strip the prefix, put a `0` in front of an odd number of digits, `ParseUint`;
+    an error PANICS (`panic(err)`) -/
+def decodeUint64 (s : List Nat) : Res Nat :=
+  let s := strip0xN s
+  let s := if s.length % 2 == 1 then 48 :: s else s
+  match parseUint16 s with
+  | .ok n => .ok n
+  | _ => .panic
+
+def hexCode (d : Nat) : Nat := if d < 10 then 48 + d else 87 + d
+
+/-- `strconv.FormatUint(n, 16)`: lower-case digits, no leading zero (`0` for zero); `fuel` = number of
+    digits available (16 suffice for a uint64) -/
+def fmtHex : Nat → Nat → List Nat
+  | 0, _ => []
+  | f + 1, n => if n < 16 then [hexCode n] else fmtHex f (n / 16) ++ [hexCode (n % 16)]
+
+/-- `eth.EncodeUint64` -/
+def encodeUint64 (n : Nat) : List Nat := 48 :: 120 :: fmtHex 16 n
+
 end Shovel.Codec
